@@ -1,4 +1,5 @@
 """A-user: what the properties assume about user code."""
+from pjrpc.common.common import UNSET, UnsetType
 from pjrpc.common.exceptions import JsonRpcError
 
 
@@ -12,3 +13,14 @@ def raised_ok(e):
     if isinstance(e, JsonRpcError):
         return error_ok(e)
     return True
+
+
+def handler_result_ok(r):
+    """A-user: a response produced by a middleware is a well-formed one (exactly one of result / error, a
+    protocol error object as error, a valid id)"""
+    from_unset = isinstance(r, UnsetType)
+    if from_unset:
+        return True
+    return (((r._result is UNSET) != (r._error is UNSET))
+            and (r._error is UNSET or (isinstance(r._error, JsonRpcError) and error_ok(r._error)))
+            and (r._id is None or isinstance(r._id, str) or (isinstance(r._id, int) and not isinstance(r._id, bool))))
